@@ -369,6 +369,23 @@ func cmdRun(args []string) {
 		seenRule[f.Rule] = true
 		path, note := minimiseAndVerify(c, bin, scratch, *tier, f)
 		if path == "" {
+			// another run that failed the same rule, if there is one
+			tried := 1
+			for _, g := range fails {
+				if path != "" || tried >= 3 {
+					break
+				}
+				if g.Rule == f.Rule && g.Idx != f.Idx {
+					tried++
+					var n2 string
+					path, n2 = minimiseAndVerify(c, bin, scratch, *tier, g)
+					if path != "" {
+						f, note = g, n2
+					}
+				}
+			}
+		}
+		if path == "" {
 			die2("failure (rule %s, run %d, seed %d) could not be replayed deterministically: %s", f.Rule, f.Idx, f.Seed, note)
 		}
 		violations++
@@ -507,23 +524,38 @@ func minimiseAndVerify(c *Check, bin, scratch, tier string, f harness.Record) (s
 	} else {
 		note = "shrink did not keep the failure (" + sr.Msg + "); using the unminimised run"
 	}
-	cand := filepath.Join(scratch, "min-"+f.Rule+".json")
-	writeJSON(cand, min)
-	// verify in a fresh process, twice, at two GOMAXPROCS settings
-	for _, procs := range []string{"1", "4"} {
-		rout := filepath.Join(scratch, "replay-"+f.Rule+"-"+procs+".jsonl")
-		env := append(append([]string{}, c.Env...), "VERIF_MODE=replay", "VERIF_REPLAY="+cand, "VERIF_OUT="+rout, "GOMAXPROCS="+procs)
-		if o, err := runWorker(bin, scratch, env, 10*time.Minute); err != nil {
-			return "", "replay worker failed: " + err.Error() + "\n" + tail(o, 30)
+	// verify in fresh processes, at two GOMAXPROCS settings; if the minimised candidate does
+	// not reproduce (the shrinker's verdict on it came from a process that had run many
+	// other candidates before), fall back to the run exactly as it was found
+	verify := func(rfile harness.ReplayFile, tag string) string {
+		cand := filepath.Join(scratch, tag+"-"+f.Rule+".json")
+		writeJSON(cand, rfile)
+		for _, procs := range []string{"1", "4"} {
+			rout := filepath.Join(scratch, "replay-"+tag+"-"+f.Rule+"-"+procs+".jsonl")
+			env := append(append([]string{}, c.Env...), "VERIF_MODE=replay", "VERIF_REPLAY="+cand, "VERIF_OUT="+rout, "GOMAXPROCS="+procs)
+			if o, err := runWorker(bin, scratch, env, 10*time.Minute); err != nil {
+				return "replay worker failed: " + err.Error() + "\n" + tail(o, 30)
+			}
+			rr, err := readRecords(rout)
+			if err != nil || len(rr) == 0 {
+				return "replay produced no record"
+			}
+			r := rr[0]
+			if r.Rule != rfile.Rule || r.Digest != rfile.Digest || r.Diverged {
+				return fmt.Sprintf("fresh-process replay differs: rule %q vs %q, digest %s vs %s, diverged=%v %s", r.Rule, rfile.Rule, r.Digest, rfile.Digest, r.Diverged, r.Msg)
+			}
 		}
-		rr, err := readRecords(rout)
-		if err != nil || len(rr) == 0 {
-			return "", "replay produced no record"
+		return ""
+	}
+	if problem := verify(min, "min"); problem != "" {
+		if !min.Minimised {
+			return "", problem
 		}
-		r := rr[0]
-		if r.Rule != min.Rule || r.Digest != min.Digest || r.Diverged {
-			return "", fmt.Sprintf("fresh-process replay differs: rule %q vs %q, digest %s vs %s, diverged=%v %s", r.Rule, min.Rule, r.Digest, min.Digest, r.Diverged, r.Msg)
+		if p2 := verify(rf, "raw"); p2 != "" {
+			return "", problem + "; the unminimised run: " + p2
 		}
+		note = "the minimised candidate did not reproduce in a fresh process (" + problem + "); the run is kept as found"
+		min = rf
 	}
 	dir := filepath.Join(verifRoot, "replays", c.ID)
 	os.MkdirAll(dir, 0o755)
